@@ -1,1 +1,640 @@
-//! Reference: key packets, fingerprints, key ids, secret key protection, ECDH.
+//! Reference: key packets (public and secret), fingerprints, key ids, secret key protection,
+//! ECDH / X25519 / X448 session key wrapping. Only primitive crates are used.
+
+use super::sym::{
+    aead_nonce_len, aead_open, aead_seal, aes_kw_unwrap, aes_kw_wrap, block_size, cfb_decrypt,
+    cfb_encrypt, hkdf_sha256, key_size, RefS2k,
+};
+use super::{be32, hash, mpi, read_mpi, sum16};
+
+#[derive(Debug, Clone, PartialEq, Eq)]
+pub struct RefPub {
+    pub version: u8,
+    pub created: u32,
+    pub v3_expiry_days: u16,
+    pub alg: u8,
+    /// algorithm specific material exactly as on the wire
+    pub material: Vec<u8>,
+}
+
+/// Number of octets of the public material of `alg` at the start of `b` (None if unknown alg
+/// or truncated).
+pub fn pub_material_len(alg: u8, b: &[u8]) -> Option<usize> {
+    let mpis = |n: usize, mut p: usize| -> Option<usize> {
+        for _ in 0..n {
+            p = read_mpi(b, p)?.1;
+        }
+        Some(p)
+    };
+    let oid = |p: usize| -> Option<usize> {
+        let l = *b.get(p)? as usize;
+        if l == 0 || l == 0xFF || p + 1 + l > b.len() {
+            return None;
+        }
+        Some(p + 1 + l)
+    };
+    match alg {
+        1 | 2 | 3 => mpis(2, 0),
+        16 => mpis(3, 0),
+        17 => mpis(4, 0),
+        18 => {
+            let p = mpis(1, oid(0)?)?;
+            let kl = *b.get(p)? as usize;
+            if p + 1 + kl > b.len() {
+                return None;
+            }
+            Some(p + 1 + kl)
+        }
+        19 | 22 => mpis(1, oid(0)?),
+        25 | 27 => (b.len() >= 32).then_some(32),
+        26 => (b.len() >= 56).then_some(56),
+        28 => (b.len() >= 57).then_some(57),
+        _ => None,
+    }
+}
+
+impl RefPub {
+    pub fn encode(&self) -> Vec<u8> {
+        let mut o = vec![self.version];
+        o.extend(be32(self.created));
+        if self.version <= 3 {
+            o.extend(self.v3_expiry_days.to_be_bytes());
+        }
+        o.push(self.alg);
+        if self.version == 6 {
+            o.extend(be32(self.material.len() as u32));
+        }
+        o.extend(&self.material);
+        o
+    }
+
+    /// Parses a public key body; returns the key and the number of octets consumed (the body of
+    /// a secret key packet continues after that).
+    pub fn parse_prefix(b: &[u8]) -> Option<(RefPub, usize)> {
+        let version = *b.first()?;
+        let created = u32::from_be_bytes(b.get(1..5)?.try_into().ok()?);
+        let mut p = 5;
+        let mut v3_expiry_days = 0;
+        if version == 2 || version == 3 {
+            v3_expiry_days = u16::from_be_bytes(b.get(5..7)?.try_into().ok()?);
+            p = 7;
+        } else if version != 4 && version != 6 {
+            return None;
+        }
+        let alg = *b.get(p)?;
+        p += 1;
+        let mlen = if version == 6 {
+            let l = u32::from_be_bytes(b.get(p..p + 4)?.try_into().ok()?) as usize;
+            p += 4;
+            if p + l > b.len() {
+                return None;
+            }
+            l
+        } else {
+            pub_material_len(alg, &b[p..])?
+        };
+        let material = b.get(p..p + mlen)?.to_vec();
+        Some((
+            RefPub {
+                version,
+                created,
+                v3_expiry_days,
+                alg,
+                material,
+            },
+            p + mlen,
+        ))
+    }
+
+    pub fn fingerprint(&self) -> Vec<u8> {
+        let body = self.encode();
+        match self.version {
+            2 | 3 => {
+                // MD5 over the bodies of the MPIs n and e (without length prefixes)
+                let (n, p) = read_mpi(&self.material, 0).unwrap_or((&[], 0));
+                let (e, _) = read_mpi(&self.material, p).unwrap_or((&[], 0));
+                hash(1, &[n, e]).unwrap()
+            }
+            6 => hash(8, &[&[0x9B], &be32(body.len() as u32), &body]).unwrap(),
+            _ => hash(2, &[&[0x99], &(body.len() as u16).to_be_bytes(), &body]).unwrap(),
+        }
+    }
+
+    pub fn key_id(&self) -> [u8; 8] {
+        let mut id = [0u8; 8];
+        match self.version {
+            2 | 3 => {
+                let (n, _) = read_mpi(&self.material, 0).unwrap_or((&[], 0));
+                if n.len() >= 8 {
+                    id.copy_from_slice(&n[n.len() - 8..]);
+                }
+            }
+            6 => id.copy_from_slice(&self.fingerprint()[..8]),
+            _ => {
+                let f = self.fingerprint();
+                id.copy_from_slice(&f[f.len() - 8..]);
+            }
+        }
+        id
+    }
+}
+
+// ---------------------------------------------------------------------------------------
+// Secret key packets
+
+#[derive(Debug, Clone, PartialEq, Eq)]
+pub enum RefProtection {
+    /// usage 0
+    None,
+    /// usage = cipher id (legacy): key = MD5(password) ... (simple S2K with MD5), sum16 check
+    LegacyCipher { cipher: u8, iv: Vec<u8> },
+    /// usage 255: CFB + sum16
+    MalleableCfb { cipher: u8, s2k: RefS2k, iv: Vec<u8> },
+    /// usage 254: CFB + SHA-1
+    Cfb { cipher: u8, s2k: RefS2k, iv: Vec<u8> },
+    /// usage 253
+    Aead { cipher: u8, aead: u8, s2k: RefS2k, nonce: Vec<u8> },
+}
+
+#[derive(Debug, Clone, PartialEq, Eq)]
+pub struct RefSecret {
+    pub public: RefPub,
+    pub protection: RefProtection,
+    /// unprotected: secret material followed by its 2-octet checksum for v4 (none for v6);
+    /// protected: the ciphertext
+    pub data: Vec<u8>,
+}
+
+impl RefProtection {
+    pub fn usage(&self) -> u8 {
+        match self {
+            RefProtection::None => 0,
+            RefProtection::LegacyCipher { cipher, .. } => *cipher,
+            RefProtection::MalleableCfb { .. } => 255,
+            RefProtection::Cfb { .. } => 254,
+            RefProtection::Aead { .. } => 253,
+        }
+    }
+}
+
+impl RefSecret {
+    pub fn encode(&self) -> Vec<u8> {
+        let mut o = self.public.encode();
+        let v6 = self.public.version == 6;
+        o.push(self.protection.usage());
+        let mut fields = vec![];
+        match &self.protection {
+            RefProtection::None => {}
+            RefProtection::LegacyCipher { iv, .. } => fields.extend(iv),
+            RefProtection::MalleableCfb { cipher, s2k, iv } | RefProtection::Cfb { cipher, s2k, iv } => {
+                fields.push(*cipher);
+                let s = s2k.encode();
+                if v6 {
+                    fields.push(s.len() as u8);
+                }
+                fields.extend(s);
+                fields.extend(iv);
+            }
+            RefProtection::Aead { cipher, aead, s2k, nonce } => {
+                fields.push(*cipher);
+                fields.push(*aead);
+                let s = s2k.encode();
+                if v6 {
+                    fields.push(s.len() as u8);
+                }
+                fields.extend(s);
+                fields.extend(nonce);
+            }
+        }
+        if v6 && !matches!(self.protection, RefProtection::None) {
+            o.push(fields.len() as u8);
+        }
+        o.extend(fields);
+        o.extend(&self.data);
+        o
+    }
+
+    pub fn parse(b: &[u8]) -> Option<RefSecret> {
+        let (public, mut p) = RefPub::parse_prefix(b)?;
+        let v6 = public.version == 6;
+        let usage = *b.get(p)?;
+        p += 1;
+        if v6 && usage != 0 {
+            // count of following fields
+            let _n = *b.get(p)?;
+            p += 1;
+        }
+        let protection = match usage {
+            0 => RefProtection::None,
+            253 | 254 | 255 => {
+                let cipher = *b.get(p)?;
+                p += 1;
+                let mut aead = 0;
+                if usage == 253 {
+                    aead = *b.get(p)?;
+                    p += 1;
+                }
+                if v6 {
+                    let _sl = *b.get(p)?;
+                    p += 1;
+                }
+                let (s2k, n) = RefS2k::parse(b.get(p..)?)?;
+                p += n;
+                let ivl = if usage == 253 {
+                    aead_nonce_len(aead)?
+                } else {
+                    block_size(cipher)?
+                };
+                let iv = b.get(p..p + ivl)?.to_vec();
+                p += ivl;
+                match usage {
+                    253 => RefProtection::Aead { cipher, aead, s2k, nonce: iv },
+                    254 => RefProtection::Cfb { cipher, s2k, iv },
+                    _ => RefProtection::MalleableCfb { cipher, s2k, iv },
+                }
+            }
+            c => {
+                let ivl = block_size(c)?;
+                let iv = b.get(p..p + ivl)?.to_vec();
+                p += ivl;
+                RefProtection::LegacyCipher { cipher: c, iv }
+            }
+        };
+        Some(RefSecret {
+            public,
+            protection,
+            data: b[p..].to_vec(),
+        })
+    }
+
+    /// Locks raw secret material (algorithm specific wire form, without checksum) — v4/v6 only.
+    /// `packet_tag` is 5 (secret key) or 7 (secret subkey); it enters the AEAD construction.
+    pub fn lock(
+        public: &RefPub,
+        packet_tag: u8,
+        protection: RefProtection,
+        pw: &[u8],
+        material: &[u8],
+    ) -> Option<RefSecret> {
+        let data = match &protection {
+            RefProtection::None => {
+                let mut d = material.to_vec();
+                if public.version != 6 {
+                    d.extend(sum16(material).to_be_bytes());
+                }
+                d
+            }
+            RefProtection::LegacyCipher { cipher, iv } => {
+                let key = RefS2k::Simple { hash: 1 }.derive(pw, key_size(*cipher)?)?;
+                let mut d = material.to_vec();
+                d.extend(sum16(material).to_be_bytes());
+                cfb_encrypt(*cipher, &key, iv, &mut d)?;
+                d
+            }
+            RefProtection::MalleableCfb { cipher, s2k, iv } => {
+                let key = s2k.derive(pw, key_size(*cipher)?)?;
+                let mut d = material.to_vec();
+                d.extend(sum16(material).to_be_bytes());
+                cfb_encrypt(*cipher, &key, iv, &mut d)?;
+                d
+            }
+            RefProtection::Cfb { cipher, s2k, iv } => {
+                let key = s2k.derive(pw, key_size(*cipher)?)?;
+                let mut d = material.to_vec();
+                d.extend(hash(2, &[material])?);
+                cfb_encrypt(*cipher, &key, iv, &mut d)?;
+                d
+            }
+            RefProtection::Aead { cipher, aead, s2k, nonce } => {
+                let (kek, ad) = aead_protection_keys(public, packet_tag, *cipher, *aead, s2k, pw)?;
+                aead_seal(*cipher, *aead, &kek, nonce, &ad, material)?
+            }
+        };
+        Some(RefSecret {
+            public: public.clone(),
+            protection,
+            data,
+        })
+    }
+
+    /// Unlocks: returns the raw secret material (without checksum). Err(()) = wrong password /
+    /// integrity failure; None = unsupported parameters.
+    pub fn unlock(&self, packet_tag: u8, pw: &[u8]) -> Option<Result<Vec<u8>, ()>> {
+        let split_sum = |d: Vec<u8>| -> Result<Vec<u8>, ()> {
+            if d.len() < 2 {
+                return Err(());
+            }
+            let (m, c) = d.split_at(d.len() - 2);
+            if sum16(m).to_be_bytes() != [c[0], c[1]] {
+                return Err(());
+            }
+            Ok(m.to_vec())
+        };
+        Some(match &self.protection {
+            RefProtection::None => {
+                if self.public.version == 6 {
+                    Ok(self.data.clone())
+                } else {
+                    split_sum(self.data.clone())
+                }
+            }
+            RefProtection::LegacyCipher { cipher, iv } => {
+                let key = RefS2k::Simple { hash: 1 }.derive(pw, key_size(*cipher)?)?;
+                let mut d = self.data.clone();
+                cfb_decrypt(*cipher, &key, iv, &mut d)?;
+                split_sum(d)
+            }
+            RefProtection::MalleableCfb { cipher, s2k, iv } => {
+                let key = s2k.derive(pw, key_size(*cipher)?)?;
+                let mut d = self.data.clone();
+                cfb_decrypt(*cipher, &key, iv, &mut d)?;
+                split_sum(d)
+            }
+            RefProtection::Cfb { cipher, s2k, iv } => {
+                let key = s2k.derive(pw, key_size(*cipher)?)?;
+                let mut d = self.data.clone();
+                cfb_decrypt(*cipher, &key, iv, &mut d)?;
+                if d.len() < 20 {
+                    return Some(Err(()));
+                }
+                let (m, h) = d.split_at(d.len() - 20);
+                if hash(2, &[m])? != h {
+                    Err(())
+                } else {
+                    Ok(m.to_vec())
+                }
+            }
+            RefProtection::Aead { cipher, aead, s2k, nonce } => {
+                let (kek, ad) = aead_protection_keys(&self.public, packet_tag, *cipher, *aead, s2k, pw)?;
+                aead_open(*cipher, *aead, &kek, nonce, &ad, &self.data)?
+            }
+        })
+    }
+}
+
+/// RFC 9580 3.7.2.1 / 5.5.3: KEK = HKDF-SHA256(ikm = S2K output, salt none,
+/// info = [packet type octet (0xC5/0xC7), key version, cipher, aead]); AD = same packet type
+/// octet followed by the public key packet body.
+pub fn aead_protection_keys(
+    public: &RefPub,
+    packet_tag: u8,
+    cipher: u8,
+    aead: u8,
+    s2k: &RefS2k,
+    pw: &[u8],
+) -> Option<(Vec<u8>, Vec<u8>)> {
+    let ks = key_size(cipher)?;
+    let ikm = s2k.derive(pw, ks)?;
+    let type_octet = 0xC0 | packet_tag;
+    let info = [type_octet, public.version, cipher, aead];
+    let kek = hkdf_sha256(None, &ikm, &info, ks);
+    let mut ad = vec![type_octet];
+    ad.extend(public.encode());
+    Some((kek, ad))
+}
+
+// ---------------------------------------------------------------------------------------
+// ECDH (RFC 9580 11.5, RFC 6637)
+
+pub const OID_P256: &[u8] = &[0x2A, 0x86, 0x48, 0xCE, 0x3D, 0x03, 0x01, 0x07];
+pub const OID_P384: &[u8] = &[0x2B, 0x81, 0x04, 0x00, 0x22];
+pub const OID_P521: &[u8] = &[0x2B, 0x81, 0x04, 0x00, 0x23];
+pub const OID_CV25519: &[u8] = &[0x2B, 0x06, 0x01, 0x04, 0x01, 0x97, 0x55, 0x01, 0x05, 0x01];
+pub const OID_ED25519: &[u8] = &[0x2B, 0x06, 0x01, 0x04, 0x01, 0xDA, 0x47, 0x0F, 0x01];
+pub const OID_K256: &[u8] = &[0x2B, 0x81, 0x04, 0x00, 0x0A];
+
+#[derive(Debug, Clone, PartialEq, Eq)]
+pub struct EcdhPub {
+    pub oid: Vec<u8>,
+    /// point as in the MPI (0x04||x||y or 0x40||x)
+    pub point: Vec<u8>,
+    pub kdf_hash: u8,
+    pub kek_alg: u8,
+}
+
+pub fn parse_ecdh_material(m: &[u8]) -> Option<EcdhPub> {
+    let l = *m.first()? as usize;
+    let oid = m.get(1..1 + l)?.to_vec();
+    let (point, p) = read_mpi(m, 1 + l)?;
+    let kl = *m.get(p)? as usize;
+    if kl != 3 || *m.get(p + 1)? != 1 {
+        return None;
+    }
+    Some(EcdhPub {
+        oid,
+        point: point.to_vec(),
+        kdf_hash: *m.get(p + 2)?,
+        kek_alg: *m.get(p + 3)?,
+    })
+}
+
+/// KDF parameter block
+pub fn ecdh_kdf_param(k: &EcdhPub, fingerprint: &[u8]) -> Vec<u8> {
+    let mut o = vec![k.oid.len() as u8];
+    o.extend(&k.oid);
+    o.push(18);
+    o.extend([3, 1, k.kdf_hash, k.kek_alg]);
+    o.extend(b"Anonymous Sender    ");
+    o.extend(fingerprint);
+    o
+}
+
+pub fn ecdh_kek(k: &EcdhPub, fingerprint: &[u8], shared: &[u8]) -> Option<Vec<u8>> {
+    let param = ecdh_kdf_param(k, fingerprint);
+    let h = hash(k.kdf_hash, &[&[0, 0, 0, 1], shared, &param])?;
+    let ks = key_size(k.kek_alg)?;
+    if h.len() < ks {
+        return None;
+    }
+    Some(h[..ks].to_vec())
+}
+
+/// PKCS5-style padding to a multiple of 8 (always at least one octet)
+pub fn pkcs5_pad(m: &[u8]) -> Vec<u8> {
+    let pad = 8 - m.len() % 8;
+    let mut o = m.to_vec();
+    o.extend(std::iter::repeat(pad as u8).take(pad));
+    o
+}
+pub fn pkcs5_unpad(m: &[u8]) -> Option<Vec<u8>> {
+    let pad = *m.last()? as usize;
+    if pad == 0 || pad > 8 || pad > m.len() {
+        return None;
+    }
+    if !m[m.len() - pad..].iter().all(|b| *b as usize == pad) {
+        return None;
+    }
+    Some(m[..m.len() - pad].to_vec())
+}
+
+/// Shared secret for the recipient side given the recipient's secret scalar (big endian for
+/// NIST curves; for Curve25519Legacy the *wire* form, i.e. big-endian / reversed native).
+pub fn ecdh_shared_recipient(oid: &[u8], secret_wire: &[u8], ephemeral_point: &[u8]) -> Option<Vec<u8>> {
+    use p256::elliptic_curve::sec1::FromEncodedPoint;
+    if oid == OID_CV25519 {
+        if ephemeral_point.len() != 33 || ephemeral_point[0] != 0x40 {
+            return None;
+        }
+        let mut sk = [0u8; 32];
+        if secret_wire.len() > 32 {
+            return None;
+        }
+        // left pad then reverse to little endian
+        sk[32 - secret_wire.len()..].copy_from_slice(secret_wire);
+        sk.reverse();
+        let secret = x25519_dalek::StaticSecret::from(sk);
+        let mut pk = [0u8; 32];
+        pk.copy_from_slice(&ephemeral_point[1..]);
+        let shared = secret.diffie_hellman(&x25519_dalek::PublicKey::from(pk));
+        return Some(shared.as_bytes().to_vec());
+    }
+    macro_rules! nist {
+        ($c:ident, $n:expr) => {{
+            let mut skb = vec![0u8; $n];
+            if secret_wire.len() > $n {
+                return None;
+            }
+            skb[$n - secret_wire.len()..].copy_from_slice(secret_wire);
+            let sk = $c::SecretKey::from_slice(&skb).ok()?;
+            let ep = $c::EncodedPoint::from_bytes(ephemeral_point).ok()?;
+            let pk = Option::<$c::PublicKey>::from($c::PublicKey::from_encoded_point(&ep))?;
+            let shared = $c::elliptic_curve::ecdh::diffie_hellman(sk.to_nonzero_scalar(), pk.as_affine());
+            Some(shared.raw_secret_bytes().to_vec())
+        }};
+    }
+    if oid == OID_P256 {
+        nist!(p256, 32)
+    } else if oid == OID_P384 {
+        nist!(p384, 48)
+    } else if oid == OID_P521 {
+        nist!(p521, 66)
+    } else {
+        None
+    }
+}
+
+/// Sender side: returns (ephemeral public point for the wire, shared secret) from a chosen
+/// ephemeral scalar seed.
+pub fn ecdh_shared_sender(oid: &[u8], recipient_point: &[u8], eph_seed: &[u8; 32]) -> Option<(Vec<u8>, Vec<u8>)> {
+    use p256::elliptic_curve::sec1::{FromEncodedPoint, ToEncodedPoint};
+    if oid == OID_CV25519 {
+        if recipient_point.len() != 33 || recipient_point[0] != 0x40 {
+            return None;
+        }
+        let secret = x25519_dalek::StaticSecret::from(*eph_seed);
+        let public = x25519_dalek::PublicKey::from(&secret);
+        let mut pk = [0u8; 32];
+        pk.copy_from_slice(&recipient_point[1..]);
+        let shared = secret.diffie_hellman(&x25519_dalek::PublicKey::from(pk));
+        let mut wire = vec![0x40];
+        wire.extend(public.as_bytes());
+        return Some((wire, shared.as_bytes().to_vec()));
+    }
+    macro_rules! nist {
+        ($c:ident, $n:expr) => {{
+            let mut skb = vec![0u8; $n];
+            // derive a scalar from the seed: hash-expand, clear top bits to stay below the order
+            let h = hash(10, &[eph_seed])?;
+            let m = $n.min(64);
+            skb[$n - m..].copy_from_slice(&h[..m]);
+            skb[0] = 0;
+            if $n > 64 {
+                skb[1] = 0;
+            }
+            skb[$n - m] &= 0x3F;
+            let sk = $c::SecretKey::from_slice(&skb).ok()?;
+            let ep = $c::EncodedPoint::from_bytes(recipient_point).ok()?;
+            let pk = Option::<$c::PublicKey>::from($c::PublicKey::from_encoded_point(&ep))?;
+            let shared = $c::elliptic_curve::ecdh::diffie_hellman(sk.to_nonzero_scalar(), pk.as_affine());
+            let wire = sk.public_key().to_encoded_point(false).as_bytes().to_vec();
+            Some((wire, shared.raw_secret_bytes().to_vec()))
+        }};
+    }
+    if oid == OID_P256 {
+        nist!(p256, 32)
+    } else if oid == OID_P384 {
+        nist!(p384, 48)
+    } else if oid == OID_P521 {
+        nist!(p521, 66)
+    } else {
+        None
+    }
+}
+
+/// ECDH PKESK algorithm-specific fields: MPI(ephemeral) || len || wrapped
+pub fn ecdh_wrap(k: &EcdhPub, fingerprint: &[u8], eph_seed: &[u8; 32], plain: &[u8]) -> Option<Vec<u8>> {
+    let (eph, shared) = ecdh_shared_sender(&k.oid, &k.point, eph_seed)?;
+    let kek = ecdh_kek(k, fingerprint, &shared)?;
+    let wrapped = aes_kw_wrap(&kek, &pkcs5_pad(plain))?;
+    let mut o = mpi(&eph);
+    o.push(wrapped.len() as u8);
+    o.extend(wrapped);
+    Some(o)
+}
+
+/// Recipient side for the fields produced by the library: returns the unpadded plaintext.
+pub fn ecdh_unwrap(k: &EcdhPub, fingerprint: &[u8], secret_wire: &[u8], fields: &[u8]) -> Option<Vec<u8>> {
+    let (eph, p) = read_mpi(fields, 0)?;
+    let l = *fields.get(p)? as usize;
+    let wrapped = fields.get(p + 1..p + 1 + l)?;
+    let shared = ecdh_shared_recipient(&k.oid, secret_wire, eph)?;
+    let kek = ecdh_kek(k, fingerprint, &shared)?;
+    pkcs5_unpad(&aes_kw_unwrap(&kek, wrapped)?)
+}
+
+// ---------------------------------------------------------------------------------------
+// X25519 / X448 (RFC 9580 5.1.6, 5.1.7)
+
+/// Returns (ephemeral public 32, wrapped key)
+pub fn x25519_wrap(recipient_pub: &[u8; 32], eph_seed: &[u8; 32], session_key: &[u8]) -> Option<(Vec<u8>, Vec<u8>)> {
+    let secret = x25519_dalek::StaticSecret::from(*eph_seed);
+    let public = x25519_dalek::PublicKey::from(&secret);
+    let shared = secret.diffie_hellman(&x25519_dalek::PublicKey::from(*recipient_pub));
+    let mut ikm = public.as_bytes().to_vec();
+    ikm.extend(recipient_pub);
+    ikm.extend(shared.as_bytes());
+    let kek = hkdf_sha256(None, &ikm, b"OpenPGP X25519", 16);
+    Some((public.as_bytes().to_vec(), aes_kw_wrap(&kek, session_key)?))
+}
+
+pub fn x25519_unwrap(recipient_secret: &[u8; 32], ephemeral: &[u8; 32], wrapped: &[u8]) -> Option<Vec<u8>> {
+    let secret = x25519_dalek::StaticSecret::from(*recipient_secret);
+    let public = x25519_dalek::PublicKey::from(&secret);
+    let shared = secret.diffie_hellman(&x25519_dalek::PublicKey::from(*ephemeral));
+    let mut ikm = ephemeral.to_vec();
+    ikm.extend(public.as_bytes());
+    ikm.extend(shared.as_bytes());
+    let kek = hkdf_sha256(None, &ikm, b"OpenPGP X25519", 16);
+    aes_kw_unwrap(&kek, wrapped)
+}
+
+pub fn hkdf_sha512(ikm: &[u8], info: &[u8], len: usize) -> Vec<u8> {
+    let hk = hkdf::Hkdf::<sha2::Sha512>::new(None, ikm);
+    let mut out = vec![0u8; len];
+    hk.expand(info, &mut out).expect("hkdf length");
+    out
+}
+
+pub fn x448_unwrap(recipient_secret: &[u8; 56], ephemeral: &[u8; 56], wrapped: &[u8]) -> Option<Vec<u8>> {
+    let secret = cx448::x448::Secret::from(*recipient_secret);
+    let public = cx448::x448::PublicKey::from(&secret);
+    let eph = cx448::x448::PublicKey::from_bytes(ephemeral)?;
+    let shared = secret.as_diffie_hellman(&eph)?;
+    let mut ikm = ephemeral.to_vec();
+    ikm.extend(public.as_bytes());
+    ikm.extend(shared.as_bytes());
+    let kek = hkdf_sha512(&ikm, b"OpenPGP X448", 32);
+    aes_kw_unwrap(&kek, wrapped)
+}
+
+pub fn x448_wrap(recipient_pub: &[u8; 56], eph_seed: &[u8; 56], session_key: &[u8]) -> Option<(Vec<u8>, Vec<u8>)> {
+    let secret = cx448::x448::Secret::from(*eph_seed);
+    let public = cx448::x448::PublicKey::from(&secret);
+    let rp = cx448::x448::PublicKey::from_bytes(recipient_pub)?;
+    let shared = secret.as_diffie_hellman(&rp)?;
+    let mut ikm = public.as_bytes().to_vec();
+    ikm.extend(recipient_pub);
+    ikm.extend(shared.as_bytes());
+    let kek = hkdf_sha512(&ikm, b"OpenPGP X448", 32);
+    Some((public.as_bytes().to_vec(), aes_kw_wrap(&kek, session_key)?))
+}
